@@ -144,6 +144,29 @@ func writeAux(root string, aux map[string]string) error {
 	return nil
 }
 
+// auxOverride returns the mutated content of the neighbour file a case mutates (nil when the
+// case mutates none, or names one the fixture does not have).
+func auxOverride(ext *extInfo, base, treePath, auxPath string, muts []Mut) map[string][]byte {
+	if auxPath == "" {
+		return nil
+	}
+	src, ok := auxFiles(ext, base, treePath)[auxPath]
+	if !ok {
+		return nil
+	}
+	var data []byte
+	if strings.HasPrefix(src, "=") {
+		data = []byte(src[1:])
+	} else {
+		b, err := os.ReadFile(filepath.Join(repoRoot(), filepath.FromSlash(src)))
+		if err != nil {
+			return nil
+		}
+		data = b
+	}
+	return map[string][]byte{auxPath: clamp(applyMuts(data, muts))}
+}
+
 // runResult is what one direct Extract call did.
 type runResult struct {
 	// Malformed describes an inventory no consumer can use (a nil package entry).
@@ -255,10 +278,20 @@ func dropTree(key string) {
 // runExtract writes data at treePath in a work tree and calls Extract the way the walk does
 // (file opened through the scan FS, Info from the open file, Root set to the tree), under
 // recover and a watchdog.
-func runExtract(ext *extInfo, base, treePath string, data []byte, timeout time.Duration) (runResult, error) {
+func runExtract(ext *extInfo, base, treePath string, data []byte, timeout time.Duration, over ...map[string][]byte) (runResult, error) {
 	w, key, err := getTree(ext, base, treePath)
 	if err != nil {
 		return runResult{}, fmt.Errorf("harness: %w", err)
+	}
+	// mutated neighbour files: written over the tree's copies; the tree is not reused afterwards
+	for _, o := range over {
+		for p, b := range o {
+			if err := writeFileAt(w.root, p, b, false); err != nil {
+				dropTree(key)
+				return runResult{}, fmt.Errorf("harness: %w", err)
+			}
+			defer dropTree(key)
+		}
 	}
 	target := filepath.Join(w.root, filepath.FromSlash(treePath))
 	mode := fs.FileMode(0o644)
